@@ -169,13 +169,16 @@ def cell_pool():
         code_cell('plt.show()\n', [out_display(0)], 6),
         md_cell(''),
         code_cell(LONG_SOURCE, [out_stream('done\n')], 7),
+        code_cell('a = 0\rb = 1\nc = 2\x0cd = 3\ne = 5\nf = 6\n', [out_stream(' 10%\r 50%\r100%\nloss: 0.5\nelapsed: 1.51 s\n', 'stderr')], 8,
+                  {'f': None, 'g': 0}),
+        md_cell('first\u2028second\nthird\x85fourth\nfifth\n', None, {'f': '', 'g': []}),
     ]
 
 
 def base_notebooks(maxcells=3, minors=(5, 4, 2)):
     pool = cell_pool()
     out = []
-    combos = [(), (0,), (1,), (6,), (11,), (1, 6), (2, 3), (7, 4), (11, 6), (1, 2, 6), (3, 9, 8), (4, 7, 5), (0, 1, 2, 3), (6, 2, 5, 7)]
+    combos = [(), (0,), (1,), (6,), (11,), (1, 6), (2, 3), (7, 4), (11, 6), (1, 2, 6), (3, 9, 8), (4, 7, 5), (0, 1, 2, 3), (6, 2, 5, 7), (12,), (13, 12), (1, 12, 13)]
     for ci, combo in enumerate(combos):
         if len(combo) > maxcells:
             continue
@@ -195,7 +198,7 @@ def _newid(nb, rnd):
 def edit_ops():
     return ['insert', 'delete', 'source_line_add', 'source_line_change', 'source_line_del', 'outputs_clear',
             'outputs_append', 'outputs_change', 'metadata_flag', 'metadata_tags', 'execution_count', 'attachments',
-            'move', 'duplicate', 'nb_metadata', 'retype', 'output_metadata', 'insert_run', 'source_multi_change', 'minor_upgrade']
+            'move', 'duplicate', 'nb_metadata', 'retype', 'output_metadata', 'insert_run', 'source_multi_change', 'minor_upgrade', 'falsy_swap', 'source_last_lines']
 
 
 def apply_edit(nb, op, rnd, where=None):
@@ -266,6 +269,32 @@ def apply_edit(nb, op, rnd, where=None):
             cells[i]['source'] = ''.join(lines)
         else:
             cells[i]['source'] = 'first = 1\n'
+    elif op == 'falsy_swap':
+        falsy = [None, 0, '', [], {}]      # pairwise python-unequal (True/1 conflation is finding C02-pyeq)
+        c = cells[i]
+        key = rnd.choice(['f', 'g'])
+        cur = c['metadata'].get(key, 'absent')
+        choices = [v for v in falsy if not (type(v) is type(cur) and v == cur)]
+        c['metadata'][key] = nbformat.from_dict(rnd.choice(choices)) if True else None
+        if c['cell_type'] == 'code' and rnd.random() < 0.5:
+            c['execution_count'] = 0 if c['execution_count'] is None else None
+    elif op == 'source_last_lines':
+        # edit the last line(s) of a multi-line string (source or stream text) without touching earlier ones
+        c = cells[i]
+        targets = [('source', c)]
+        for o in c.get('outputs', []):
+            if o['output_type'] == 'stream':
+                targets.append(('text', o))
+        fld, holder = rnd.choice(targets)
+        lines = holder[fld].splitlines(True)
+        if lines:
+            k = len(lines) - 1 - (rnd.randrange(2) if len(lines) > 1 else 0)
+            nl = '\n' if lines[k].endswith('\n') else ''
+            body = lines[k].rstrip('\n')
+            lines[k] = (body[:-1] + '9' if body else 'z') + nl
+            holder[fld] = ''.join(lines)
+        else:
+            holder[fld] = 'only\n'
     elif op == 'source_line_del':
         lines = cells[i]['source'].splitlines(True)
         if lines:
